@@ -1,3 +1,4 @@
+import glob
 #!/usr/bin/env python3
 """
 tools/try_benign.py <PID> <dir-with-b1..b3> [--also=C05,C13]
@@ -62,7 +63,7 @@ def main():
                                     "claims_failing_input": rc == 1 and any(l.startswith("VIOLATION") and "no-failing-input-found" not in l for l in lines)}
                 print(pid, k, p, "quiet" if rc == 0 else ("FALSE FAILING INPUT" if rec["checks"][p]["claims_failing_input"] else "tie broken"),
                       "|", (lines[1] if len(lines) > 1 else (lines[0] if lines else ""))[:220])
-                sh(["git", "checkout", "--", "lean/PyroModel/Gen/%s.lean" % p], cwd=V)
+                sh(["git", "checkout", "--"] + sorted(glob.glob(os.path.join(V, "lean/PyroModel/Gen/%s*.lean" % p))), cwd=V)
             rec["status"] = "ran"
             save(pid, k, d, rec)
         finally:
